@@ -18,10 +18,16 @@ pub struct Case {
     pub choices: Vec<u8>,
     pub prefix: String,
     pub suffix: String,
+    /// explicit spelling (replay files of known findings: independent of the speller's choice decoding)
+    #[serde(default)]
+    pub phrase: Option<Vec<String>>,
 }
 pub struct C01;
 
 pub fn phrase_of(c: &Case) -> Vec<String> {
+    if let Some(p) = &c.phrase {
+        return p.clone();
+    }
     if c.choices.is_empty() {
         spell::cardinal(&c.lang, c.n, &mut Canon)
     } else {
@@ -128,7 +134,7 @@ impl Property for C01 {
         lang_strategy()
             .prop_flat_map(|lang| {
                 let l2 = lang.clone();
-                (num_strategy(1_000_000_000_000), choices(), prop_oneof![1 => Just((String::new(), String::new())), 3 => context(lang, true)]).prop_map(move |(n, choices, (prefix, suffix))| Case { lang: l2.clone(), n, choices, prefix, suffix })
+                (num_strategy(1_000_000_000_000), choices(), prop_oneof![1 => Just((String::new(), String::new())), 3 => context(lang, true)]).prop_map(move |(n, choices, (prefix, suffix))| Case { lang: l2.clone(), n, choices, prefix, suffix, phrase: None })
             })
             .boxed()
     }
@@ -138,7 +144,7 @@ impl Property for C01 {
     fn enumerate(&self, tier: Tier, shard: usize, nshards: usize, emit: &mut Emit<Case>) {
         let top = tier.pick(20_000u64, 1_000_000u64);
         for i in shard_range(top * 7, shard, nshards) {
-            let c = Case { lang: LANGS[(i % 7) as usize].to_string(), n: i / 7, choices: vec![], prefix: String::new(), suffix: String::new() };
+            let c = Case { lang: LANGS[(i % 7) as usize].to_string(), n: i / 7, choices: vec![], prefix: String::new(), suffix: String::new(), phrase: None };
             if !emit(c) {
                 return;
             }
@@ -155,14 +161,14 @@ impl Property for C01 {
         special.sort();
         special.dedup();
         for i in shard_range(special.len() as u64 * 7, shard, nshards) {
-            let c = Case { lang: LANGS[(i % 7) as usize].to_string(), n: special[(i / 7) as usize], choices: vec![], prefix: String::new(), suffix: String::new() };
+            let c = Case { lang: LANGS[(i % 7) as usize].to_string(), n: special[(i / 7) as usize], choices: vec![], prefix: String::new(), suffix: String::new(), phrase: None };
             if !emit(c) {
                 return;
             }
         }
     }
     fn known_signature(&self, c: &Case) -> Option<&'static str> {
-        if c.lang == "de" && c.n >= 1_000_000 && !c.choices.is_empty() {
+        if c.lang == "de" && c.n >= 1_000_000 && (!c.choices.is_empty() || c.phrase.is_some()) {
             let w = phrase_of(c);
             if w.windows(2).any(|p| p[0] == "eine" && (p[1].starts_with("million") || p[1].starts_with("milliarde"))) {
                 return Some("de-eine-million");
